@@ -3,6 +3,7 @@
 From Coq Require Import Permutation Sorting.Sorted.
 From CG3 Require Import Lib.PyZ Model.AnnotDb Spec.AnnotDbSpec Proofs.AnnotDbProofs.
 From CG3 Require Import Model.AnnotDbGff Proofs.AnnotDbGffProofs Proofs.AnnotDbGffMergeProofs Proofs.AnnotDbCountProofs.
+From CG3 Require Import Model.AnnotDbGffText Proofs.AnnotDbGffTextProofs.
 From CG3gen Require Import OverlapGen.
 
 (** the 4-clause SQL overlap test the current source emits is interval overlap *)
@@ -234,3 +235,93 @@ Proof. exact cd_rows_keys_distinct. Qed.
 Theorem count_distinct_total : forall t db sa ba na,
   zsum (map snd (cd_rows t db sa ba na)) = zlen (filter (cd_match sa ba na) (rows_of t db)).
 Proof. exact cd_rows_total. Qed.
+
+(** ---------- several GFF files behind one wildcard path ----------
+    [load_files fixed carry N files]: the outer loop [for path in paths] of
+    [_db_from_gff]; [carry = true]: the fake-id counter runs on across the files
+    (notes/proposed_fixes/C17-4.diff), [carry = false]: it restarts per file while
+    [seen_ids] is shared (the source as first read, finding C17-4).  The check
+    establishes on every run which one the source follows (GF_PROBE). *)
+
+(** loading files f1..fk with any block size = the table of their concatenation:
+    independent of how the text is cut into files and into blocks *)
+Theorem gff_files_load_is_table_of_concatenation : forall N files,
+  distinct_spans (assign 0 (data_lines (concat files))) ->
+  st_db (load_files true true N files) = table_of (assign 0 (data_lines (concat files))).
+Proof. exact load_files_table. Qed.
+
+Theorem gff_load_independent_of_files_and_blocks : forall N N' files files',
+  concat files = concat files' ->
+  distinct_spans (assign 0 (data_lines (concat files))) ->
+  st_db (load_files true true N files) = st_db (load_files true true N' files').
+Proof. exact load_files_independent. Qed.
+
+Theorem gff_files_load_is_one_block_load : forall N files,
+  distinct_spans (assign 0 (data_lines (concat files))) ->
+  st_db (load_files true true N files) = st_db (load true 0 (concat files)).
+Proof. exact load_files_is_one_block. Qed.
+
+(** with the counter restarting per file the ID-less record of the second file is
+    absorbed by the unrelated ID-less record of the first (1 record instead of 2) *)
+Theorem gff_counter_per_file_refuted :
+  length (st_db (load_files true false 0 two_files)) = 1%nat /\
+  length (st_db (load_files true true 0 two_files)) = 2%nat /\
+  distinct_spans (assign 0 (data_lines (concat two_files))).
+Proof. exact counter_per_file_merges_unrelated_records. Qed.
+
+(** ---------- from TEXT: the GFF line -> row step ---------- *)
+(** nine clean columns joined by tabs parse to the row they spell out
+    (coordinates then go through [gff_coord]: 1-based closed -> 0-based half-open) *)
+Theorem gff_wellformed_line_parses_to_its_row : forall f1 f2 f3 f4 f5 f6 f7 f8 f9 s e,
+  field_ok f1 -> field_ok f2 -> field_ok f3 -> field_ok f4 -> field_ok f5 ->
+  field_ok f6 -> field_ok f7 -> field_ok f8 -> field_ok f9 ->
+  f1 <> [] -> f9 <> [] ->
+  parse_int f4 = Some s -> parse_int f5 = Some e ->
+  parse_line (gff_line f1 f2 f3 f4 f5 f6 f7 f8 f9) =
+  PRow {| gl_id := id_of_attrs f9; gl_seqid := f1; gl_biotype := f3; gl_strand := f7;
+          gl_attrs := f9; gl_s := s; gl_e := e |}.
+Proof. exact parse_line_wellformed. Qed.
+
+Theorem gff_comment_line_gives_no_row : forall s, parse_line (35 :: s) = PSkip.
+Proof. exact parse_comment_line. Qed.
+
+Theorem gff_blank_line_gives_no_row : forall s, forallb is_ws s = true -> parse_line s = PSkip.
+Proof. exact parse_blank_line. Qed.
+
+(** the ID is the value after the first "ID=", wherever it stands among the attributes *)
+Theorem gff_id_found_in_any_position : forall pre v rest,
+  ~ In 73 pre -> val_ok v -> ends_val rest ->
+  id_of_attrs (pre ++ pat_id ++ v ++ rest) = Some v.
+Proof. exact id_after_prefix. Qed.
+
+Theorem gff_id_absent : forall a, ~ In 73 a -> id_of_attrs a = None.
+Proof. exact id_absent. Qed.
+
+(** [gff_load_is_table_of_text] starting from the text of the file *)
+Theorem gff_text_load_is_table_of_text : forall N text lines,
+  parse_lines (lines_of text) = Some lines ->
+  distinct_spans (assign 0 (data_lines lines)) ->
+  exists st, load_text N text = Some st /\ st_db st = table_of (assign 0 (data_lines lines)).
+Proof. exact load_text_table. Qed.
+
+Theorem gff_file_texts_load_is_table_of_concatenation : forall N texts files,
+  parse_files texts = Some files ->
+  distinct_spans (assign 0 (data_lines (concat files))) ->
+  st_db (load_files true true N files) = table_of (assign 0 (data_lines (concat files))).
+Proof. exact load_file_texts_table. Qed.
+
+(** ---------- get_feature_children / get_feature_parent on the gff table ---------- *)
+Theorem children_are_stored_records_naming_the_parent : forall q bt db r,
+  In r (gff_children q bt db) ->
+  In r db /\ exists p, row_parent r = Some p /\ like (wrap_pct q) p = true.
+Proof. exact children_sound. Qed.
+
+Theorem every_record_naming_the_parent_is_a_child : forall q db r a b,
+  In r db -> row_parent r = Some (a ++ q ++ b) -> ~ In 37 q -> In r (gff_children q None db).
+Proof. exact children_complete. Qed.
+
+Theorem parents_are_stored_records_named_in_the_parent_list : forall cands db x,
+  In x (parents_of cands db) ->
+  exists r p nm, In r cands /\ row_parent r = Some p /\ In nm (parent_names p) /\
+                 In x db /\ name_is nm (gr_name x) = true.
+Proof. exact parents_sound. Qed.
